@@ -47,6 +47,12 @@ CHECKS = {
  "C14": ("model_checking", "TLC on AtomFlow.tla (NoReuse, with RERANDOMIZE spec mutant) + atoms of real multi-channel histories validated by TLC",
          "every 32/48/96-byte atom of every message of real histories (3 channels, refused replies, closes from every stage, one close under a zero re-randomiser) is interned and TLC checks against the "
          "merchant's accumulated view and the secrets held in the customer state (Trace_Atoms: NoReuse, NoSecretLeak)", "6 C14"),
+ "C15": ("model_checking", "TLC on Wire.tla / WireRoles.tla (role table + decoder machine) + every leaf x every encoding class of every serializable type validated by TLC",
+         "62+ types of both crates: honest values round-trip byte for byte; each leaf of each wire form is replaced by each invalid / boundary class and TLC decides from the role table (struct, field, inside a revocation pair) "
+         "whether decoding must fail; decoded customer stages are continued (C20 twins) and a restored customer runs payments", "6 C15"),
+ "C16": ("model_checking", "TLC on Wire.tla (decoder step machine: NoPanic, AllocBounded; spec mutant must fail) + hostile byte strings decoded in isolated workers validated by TLC",
+         "length prefixes {0,n-1,n+1,2^32,2^60,2^64-1} (payload extended with valid elements, 4100 elements behind hostile prefixes of the public codecs), truncations, extensions, tags, every atom x invalid class and random strings are decoded "
+         "in worker processes under a tracking allocator: outcome must be a value or an error and the largest allocation request must stay in proportion to the input", "6 C16"),
  "C17": ("model_checking", "TLC on Ledger.tla for every input of a W-bit machine + real 64-bit operations validated by TLC with limb arithmetic",
          "MC_Ledger checks totality, exactness, error kinds, conservation, the scalar-encoding homomorphism and the limb-arithmetic refinement exhaustively for W = 3..5; ~8000 real calls on the 64-bit boundary lattice "
          "(constructors, try_add, payment application through Ready::start, wire-decoded amounts incl. i64::MIN through allow_payment, overflow checks on) are recomputed by TLC", "6 C17"),
